@@ -318,6 +318,10 @@ func (repo *Repository) ProcessHeader(ctx context.Context, header *wire.BlockHea
 	repo.Lock()
 	defer repo.Unlock()
 
+	if !bitsAreValid(header.Bits) {
+		return errors.Wrapf(ErrInvalidTarget, "malformed bits 0x%08x", header.Bits)
+	}
+
 	if !repo.disableDifficulty && !header.WorkIsValid() {
 		return ErrNotEnoughWork
 	}
